@@ -1328,7 +1328,7 @@ def seenToday (sw tw : Walk) (fs ft : Nat → Id) : List Id :=
 
 theorem hashAfter_today (sw tw : Walk) (fs ft : Nat → Id) (hasM : Bool) (touched hash0 : Id → Bool) (x : Id) :
     (runDiff today sw tw fs ft hasM touched hash0).hashAfter x =
-      if (!(needCopy sw tw && hasM) && (objs sw ++ objs tw).contains x) = true then false
+      if ((objs sw ++ objs tw).contains x && (!(needCopy sw tw && hasM) && !hash0 x)) = true then false
       else (hash0 x ||
         (if (needCopy sw tw && hasM) = true then seenToday sw tw fs ft else objs sw ++ objs tw).contains x ||
         (touched x && (seenToday sw tw fs ft).contains x)) := rfl
@@ -1344,15 +1344,13 @@ theorem input_not_seen_when_copied (sw tw : Walk) (fs ft : Nat → Id)
   exact ⟨fun h => by obtain ⟨i, rfl⟩ := mem_copy_objs h; exact hfs i hx,
          fun h => by obtain ⟨i, rfl⟩ := mem_copy_objs h; exact hft i hx⟩
 
-/-- **`diff_leaves_inputs_untouched`** (today's `diff()`, both branches): when the copies were hashed (`copy and
-    matchings`) no input node's `_hash` changes at all; otherwise every input node ends with `_hash = None` — in
-    particular inputs that came in without cached hashes leave without them.  Objects that are neither inputs nor seen
-    by the distiller are never touched.  Holds whatever hashes the distiller itself computes (`touched`). -/
+/-- **`diff_leaves_inputs_untouched`** (today's `diff()`, both branches): every input node's `_hash` cache is the same
+    after the call as before it — nodes that came in hashed (an input that is part of a bigger, already hashed tree)
+    stay hashed, nodes that came in unhashed leave unhashed.  Objects that are neither inputs nor seen by the distiller
+    (ancestors of a subtree input) are never touched.  Holds whatever hashes the distiller itself computes. -/
 theorem diff_leaves_inputs_untouched (sw tw : Walk) (fs ft : Nat → Id) (hasM : Bool) (touched hash0 : Id → Bool)
     (hfs : ∀ i, fs i ∉ objs sw ++ objs tw) (hft : ∀ i, ft i ∉ objs sw ++ objs tw) :
-    (∀ x ∈ objs sw ++ objs tw,
-      (runDiff today sw tw fs ft hasM touched hash0).hashAfter x =
-        if (needCopy sw tw && hasM) = true then hash0 x else false) ∧
+    (∀ x ∈ objs sw ++ objs tw, (runDiff today sw tw fs ft hasM touched hash0).hashAfter x = hash0 x) ∧
     (∀ y, y ∉ objs sw ++ objs tw →
       y ∉ objs (runDiff today sw tw fs ft hasM touched hash0).seenS ++ objs (runDiff today sw tw fs ft hasM touched hash0).seenT →
       (runDiff today sw tw fs ft hasM touched hash0).hashAfter y = hash0 y) := by
@@ -1365,14 +1363,14 @@ theorem diff_leaves_inputs_untouched (sw tw : Walk) (fs ft : Nat → Id) (hasM :
       have hns := input_not_seen_when_copied sw tw fs ft hfs hft hcopy x hx
       simp [hc, hns]
     · simp only [Bool.not_eq_true] at hc
-      rcases List.mem_append.mp hx with h | h <;> simp [hc, h]
+      cases hh : hash0 x <;> rcases List.mem_append.mp hx with h | h <;> simp [hc, h, hh]
   · intro y hy1 hy2
     rw [seen_today] at hy2
     rw [hashAfter_today]
     have h1 := hy1
     simp only [List.mem_append, not_or] at h1
     by_cases hc : (needCopy sw tw && hasM) = true
-    · simp [hc, hy2]
+    · simp [hc, hy2, h1.1, h1.2]
     · simp only [Bool.not_eq_true] at hc
       simp [hc, h1.1, h1.2, hy2]
 
